@@ -58,21 +58,43 @@ def fn_arg(op, name):
     return name
 
 
-def build_seg(s):
+def build_seg(s, pt=cz):
     k = s[0]
     if k == "L":
-        return Line(cz(s[1]), cz(s[2]))
+        return Line(pt(s[1]), pt(s[2]))
     if k == "Q":
-        return QuadraticBezier(cz(s[1]), cz(s[2]), cz(s[3]))
+        return QuadraticBezier(pt(s[1]), pt(s[2]), pt(s[3]))
     if k == "C":
-        return CubicBezier(cz(s[1]), cz(s[2]), cz(s[3]), cz(s[4]))
+        return CubicBezier(pt(s[1]), pt(s[2]), pt(s[3]), pt(s[4]))
     if k == "A":
-        return Arc(cz(s[1]), cz(s[2]), float(s[3]), bool(s[4]), bool(s[5]), cz(s[6]))
+        return Arc(pt(s[1]), cz(s[2]), float(s[3]), bool(s[4]), bool(s[5]), pt(s[6]))
     raise HarnessError("bad segment spec %r" % (s,))
 
 
+def _npz(p):
+    import numpy as np
+    return np.complex128(complex(p[0], p[1]))
+
+
 def build_path(spec):
-    return Path(*[build_seg(s) for s in spec["segs"]])
+    """spec['np']: control points are numpy scalars, as array indexing, seg.point(np_t) or Path.rotated()
+    hand them out - equal values, another type"""
+    return Path(*[build_seg(s, _npz if spec.get("np") else cz) for s in spec["segs"]])
+
+
+def clone_by_value(p):
+    """an independent Path with the same current defining values (the model must not see later edits)"""
+    out = []
+    for s in p:
+        if isinstance(s, Line):
+            out.append(Line(s.start, s.end))
+        elif isinstance(s, QuadraticBezier):
+            out.append(QuadraticBezier(s.start, s.control, s.end))
+        elif isinstance(s, CubicBezier):
+            out.append(CubicBezier(s.start, s.control1, s.control2, s.end))
+        else:
+            out.append(copy.deepcopy(s))
+    return Path(*out)
 
 
 def _rel_close(a, b, rtol):
@@ -324,7 +346,25 @@ def match(result, tree, reader, check_attrs=True, attr_filter=None):
         except OverflowError:
             return "inconclusive"
 
-    pairing = search(True)
+    # interchangeable candidates (same geometry, same id) may still differ in their attributes: prefer a
+    # pairing under which every supplied attribute is there, and only diagnose when there is none
+    def attrs_ok(e, j):
+        if not (check_attrs and attrs is not None and e.attrs):
+            return True
+        a = attrs[j]
+        styled = style_keys(e.attrs) if reader == "sax" else ()
+        for k0, v in e.attrs.items():
+            if (attr_filter is not None and k0 not in attr_filter) or k0 in styled:
+                continue
+            if a.get(clark(k0)) != v:
+                return False
+        return True
+    loose_cand = cand
+    cand = [[j for j in cs if attrs_ok(exp[i][0], j)] for i, cs in enumerate(loose_cand)]
+    pairing = search(True) if all(cand) else None
+    if pairing is None or pairing == "inconclusive":
+        cand = loose_cand
+        pairing = search(True)
     if pairing == "inconclusive":
         return None
     if pairing is None:
@@ -402,6 +442,7 @@ class World:
         self.files = {}
         self.docs = {}
         self.named_lists = {}
+        self.path_objs = {}      # reuse key -> live Path object (volatile: gone after a restart)
         self.encodings = {}      # file -> text encoding, for the harness's own text-mode/str adapters
         self.log = []
         self.violations = []
@@ -479,6 +520,7 @@ class World:
             self.probe("crash_or_restart_with_dirty_document")
         self.docs.clear()
         self.named_lists.clear()
+        self.path_objs.clear()
         self.fs.kill_handles()
         gc.collect()
         self.fs.kill_handles()
@@ -698,8 +740,50 @@ class World:
         self.states.add(s)
         self.transitions.add(H(s, opname))
 
+    def obtain_path(self, spec):
+        """Returns (object handed to the library, by-value snapshot for the model).  spec['reuse']: the SAME
+        Path object as in an earlier operation, after spec['edit'] moved one control point of one of its
+        Line/Quadratic/Cubic segments in place."""
+        key = spec.get("reuse")
+        if key is None:
+            obj = build_path(spec)
+            return obj, obj
+        obj = self.path_objs.get(key)
+        if obj is None:
+            obj = self.path_objs[key] = build_path(spec)
+        else:
+            self.probe("same_path_object_written_again")
+            ed = spec.get("edit")
+            if ed and len(obj) > 0:
+                seg = obj[ed["seg"] % len(obj)]
+                attr = ed["attr"]
+                if not isinstance(seg, Arc) and hasattr(seg, attr):
+                    z = cz(ed["z"])
+                    old = getattr(seg, attr)
+                    setattr(seg, attr, z)
+                    if isinstance(seg, Line) and seg.start == seg.end:
+                        setattr(seg, attr, old)          # never a zero-length line
+                    else:
+                        self.probe("segment_edited_in_place_between_two_writes")
+        return obj, clone_by_value(obj)
+
     # ---- wsvg / disvg ---------------------------------------------------------------------------------------
     def _paths_arg(self, op):
+        handed = [self.obtain_path(s)[0] for s in op["paths"]]
+        # snapshots only now: one object may sit in the list twice, edited in between
+        objs = [clone_by_value(h) if s.get("reuse") else h for s, h in zip(op["paths"], handed)]
+        how = op.get("as", "path")
+        args = []
+        for s, o in zip(op["paths"], handed):
+            if how == "segment" and len(o) == 1 and not s.get("reuse"):
+                args.append(o[0])
+            elif how == "dstring":
+                args.append(o.d())
+            else:
+                args.append(o)
+        return objs, args
+
+    def _paths_arg_old(self, op):
         objs = [build_path(s) for s in op["paths"]]
         how = op.get("as", "path")
         args = []
@@ -885,20 +969,26 @@ class World:
         dm = self.docs[op["doc"]]
         spec = op["path"]
         try:
-            obj = build_path(spec)
+            handed, obj = self.obtain_path(spec)
         except (AssertionError, ValueError, TypeError, IndexError):
             return "skipped:invalid-path-spec"
         how = op.get("as", "path")
-        arg = obj
-        if how == "segment" and len(obj) == 1:
-            arg = obj[0]
+        arg = handed
+        if how == "segment" and len(handed) == 1 and not spec.get("reuse"):
+            arg = handed[0]
         elif how == "dstring":
-            arg = obj.d()
+            arg = handed.d()
         attrs = op.get("attrs")
         g = op.get("group")
         names = None
         if g is None:
             garg = None
+        elif isinstance(g, dict) and "str" in g:
+            # the group given as ONE plain string: whatever the library makes of it (today: one nested
+            # group per character), add_path and paths_from_group must agree; the model keeps it opaque
+            names = ["str:" + g["str"]]
+            garg = g["str"]
+            self.probe("group_given_as_plain_string")
         elif isinstance(g, dict):
             names = list(g["elem"])
             garg = dm.elems.get(tuple(names))
@@ -995,9 +1085,14 @@ class World:
         if op["doc"] not in self.docs:
             return "skipped"
         dm = self.docs[op["doc"]]
-        names = list(op["names"])
-        gnode = dm.tree.find_group(names)
-        arg = self._names_arg(op, names)
+        if isinstance(op["names"], dict):
+            names = ["str:" + op["names"]["str"]]
+            gnode = dm.tree.find_group(names)
+            arg = op["names"]["str"]
+        else:
+            names = list(op["names"])
+            gnode = dm.tree.find_group(names)
+            arg = self._names_arg(op, names)
         recursive = bool(op.get("recursive", True))
         st, ps, _ = self.run({"faults": []}, lambda: dm.obj.paths_from_group(arg, recursive=recursive))
         if st != "ok":
@@ -1184,6 +1279,7 @@ class World:
             self.probe("crash_or_restart_with_dirty_document")
         self.docs.clear()
         self.named_lists.clear()
+        self.path_objs.clear()
         gc.collect()
         if self.fs.handles:
             self.probe("handle_left_open_at_restart")
@@ -1281,6 +1377,7 @@ class Gen:
         self.t0 = 1.7e9 + c.randint(0, 10 ** 6) + c.choice([0.0, 0.5, 0.123456])
         self.short_step = c.choice([1, 3, 7, 100])
         self.next_pid = 1
+        self.reusable = []
         self.queue = []
         self.last_wsvg = None
         self.recent = []
@@ -1363,7 +1460,24 @@ class Gen:
         if self.recent and r.random() < 0.12:
             segs = copy.deepcopy(r.choice(self.recent))      # the same geometry again (another pid)
         self.recent = (self.recent + [segs])[-6:]
-        return {"pid": pid, "segs": segs}
+        spec = {"pid": pid, "segs": segs}
+        x = r.random()
+        if x < 0.08:
+            spec["np"] = True
+        elif x < 0.2 and self.reusable:
+            # the same Path object as in an earlier operation, one control point moved in place
+            key, osegs = r.choice(self.reusable)
+            spec = {"pid": pid, "segs": copy.deepcopy(osegs), "reuse": key}
+            if r.random() < 0.85:
+                i = r.randrange(len(osegs))
+                kind = osegs[i][0]
+                attr = r.choice({"L": ["start", "end"], "Q": ["start", "control", "end"],
+                                 "C": ["start", "control1", "control2", "end"], "A": ["start"]}[kind])
+                spec["edit"] = {"seg": i, "attr": attr, "z": self.pt(r)}
+        elif x < 0.3:
+            spec["reuse"] = "k%d" % pid
+            self.reusable = (self.reusable + [(spec["reuse"], segs)])[-4:]
+        return spec
 
     def attrs(self, r, pid, prefixed=False):
         if self.attr_mode == "none" and r.random() < 0.8:
@@ -1597,6 +1711,8 @@ class Gen:
             x = a.random()
             if x < 0.45:
                 op["group"] = None
+            elif x < 0.55:
+                op["group"] = {"str": a.choice(["sgrp1", "sgrp2", "layer"])}
             elif x < 0.85 or not dm.elems:
                 op["group"] = a.choice(GROUP_POOL)
                 if self.reuse_names and a.random() < 0.6:
@@ -1632,6 +1748,8 @@ class Gen:
         if k == "doc_paths":
             return {"op": k, "doc": d}
         if k == "doc_paths_from_group":
+            if a.random() < 0.25:
+                return {"op": k, "doc": d, "names": {"str": a.choice(["sgrp1", "sgrp2", "layer"])}, "recursive": True}
             return {"op": k, "doc": d, "names": a.choice(GROUP_POOL), "recursive": a.random() < 0.7}
         return None
 
@@ -1787,6 +1905,7 @@ EXPECTED_PROBES = [
     "torn_or_unacknowledged_file_overwritten", "same_names_list_object_passed_to_two_calls",
     "add_path_into_element_handle", "browser_opened", "document_loaded_from_wsvg", "document_loaded_from_sax",
     "pathlib_file_name", "paths_from_group_not_recursive", "document_loaded_from_foreign",
+    "same_path_object_written_again", "segment_edited_in_place_between_two_writes", "group_given_as_plain_string",
 ]
 
 
